@@ -43,6 +43,11 @@ pub enum Op {
     /// 0 serializer, 1 committer, 2 after-commit notifier
     Pump(u8),
     Burst,
+    /// three further elements (10, 11, 12) into set `k` through open batch i
+    SInsMany(u8, u8),
+    /// submit open batch i and let the whole pipeline run (serialize, commit,
+    /// notify)
+    Flush(u8),
 }
 
 impl Op {
@@ -66,6 +71,8 @@ impl Op {
             Op::Pump(1) => "commit".into(),
             Op::Pump(_) => "notify".into(),
             Op::Burst => "burst".into(),
+            Op::SInsMany(k, i) => format!("ins(s{k},10..12)@b{i}"),
+            Op::Flush(i) => format!("submit(b{i});serialize;commit;notify"),
         }
     }
 }
@@ -116,6 +123,9 @@ pub fn alphabet(m: Mode) -> Vec<Op> {
             SRem(0, 1, Slot(0)),
             SRem(0, 1, Slot(1)),
             SIns(0, 2, Fresh),
+            SIns(0, 2, Slot(0)),
+            SInsMany(0, 0),
+            Flush(0),
             Submit(0),
             Submit(1),
             Iter(0),
@@ -335,6 +345,31 @@ pub async fn run_seq(c: Conf, seq: &[Op]) -> RunOut {
                     }
                 }
             },
+            Op::Flush(i) => match slots[*i as usize].take() {
+                Some((b, _)) => {
+                    rig.submit(b);
+                    for t in [store::T_SER0, store::T_COMMIT, store::T_NOTIFY] {
+                        let _ = xplore::pump(t);
+                    }
+                }
+                None => enabled = false,
+            },
+            Op::SInsMany(k, i) => {
+                if slots[*i as usize].is_none() {
+                    batch_no += 1;
+                    slots[*i as usize] = Some((rig.new_batch(), batch_no));
+                }
+                let (b, no) = slots[*i as usize].as_mut().unwrap();
+                for e in [10u16, 11, 12] {
+                    let wkey = format!("s{k}:{e}");
+                    if last_writer.get(&wkey).is_some_and(|l| *l > *no) {
+                        enabled = false;
+                        break;
+                    }
+                    last_writer.insert(wkey, *no);
+                    write_op(&rig, &mut model, &mut ctr, &Op::SIns(*k, e, Tgt::Slot(*i)), b).await;
+                }
+            }
             w => {
                 let wkey = match w {
                     Op::Put(k, _) | Op::Del(k, _) => format!("w{k}"),
